@@ -231,6 +231,12 @@ def assemble(repo_dir: str, unit: dict, out_path: str):
     tpath = os.path.join(VERUS_DIR, unit["template"])
     tmpl = []
     for ln in open(tpath).read().split("\n"):
+        # `<text> //@ONLY <unit id>`: the line belongs to that unit only (several units may share a template)
+        mo = re.search(r"\s*//@ONLY\s+(\w+)\s*$", ln)
+        if mo:
+            if mo.group(1) != unit["id"]:
+                continue
+            ln = ln[:mo.start()]
         mi = re.match(r"\s*//@INCLUDE\s+(\S+)", ln)
         if mi:
             tmpl += open(os.path.join(VERUS_DIR, mi.group(1))).read().split("\n")
